@@ -26,6 +26,7 @@ type scenGen struct {
 	common    []Opts       // option values used by several calls through one shared *ApplyOptions
 	ensureBuf map[int]bool // patch buffers written for callers that set EnsurePathExistsOnAdd
 	slotBuf   map[int]int  // slot -> buffer it was last decoded from (generation-time view)
+	longPair  [][2]int     // long array pairs: concurrent scenarios make sure they are compared and diffed
 }
 
 func (sg *scenGen) genCommonOpts(permille int) {
@@ -154,10 +155,16 @@ func (sg *scenGen) genBufs(corruptPermille int) {
 	if r.P(60) {
 		sg.docs = append(sg.docs, sg.addBuf(""))
 	}
-	if r.P(50) {
+	if r.P(80) {
 		// a pair of long arrays (64-120 elements, mostly small objects, a few other values): work
 		// that an implementation may split into batches or over workers
 		n := 64 + r.Intn(57)
+		vp := 300
+		if r.P(450) {
+			// several hundred elements and few differences
+			n = 512 + r.Intn(200)
+			vp = 4
+		}
 		mk := func(variant bool) string {
 			var sb strings.Builder
 			sb.WriteByte('[')
@@ -167,8 +174,9 @@ func (sg *scenGen) genBufs(corruptPermille int) {
 				}
 				switch {
 				case i%17 == 3 || i%29 == 11:
-					sb.WriteString(r.Pick([]string{"1", `"s"`, "null", "[1]", "true"}))
-				case variant && r.P(300):
+					// (the same in both documents: they differ only where the variant says so)
+					sb.WriteString([]string{"1", `"s"`, "null", "[1]", "true"}[(i*7+n)%5])
+				case variant && r.P(vp):
 					fmt.Fprintf(&sb, `{"i":%d,"v":%s}`, i, g.Scalar())
 				default:
 					fmt.Fprintf(&sb, `{"i":%d,"v":"x"}`, i)
@@ -177,10 +185,44 @@ func (sg *scenGen) genBufs(corruptPermille int) {
 			sb.WriteByte(']')
 			return sb.String()
 		}
-		a, b := sg.addBuf(mk(false)), sg.addBuf(mk(true))
+		ta, tb := mk(false), mk(true)
+		if r.Bool() {
+			// the arrays as members of two objects (compared as values, not diffed pair by pair)
+			ta, tb = `{"id":1,"rows":`+ta+`}`, `{"id":1,"rows":`+tb+`}`
+		}
+		a, b := sg.addBuf(ta), sg.addBuf(tb)
 		sg.docs = append(sg.docs, a, b)
-		sg.pairs = append(sg.pairs, [2]int{a, b}, [2]int{a, b})
+		sg.pairs = append(sg.pairs, [2]int{a, b}, [2]int{a, b}, [2]int{a, b}, [2]int{b, a})
+		sg.longPair = append(sg.longPair, [2]int{a, b})
 		sg.faults["long_array_pair"]++
+	}
+	if r.P(60) {
+		// a patch of 8-16 operations of which two or three are not acceptable, each in its own way
+		// (no value, no from, unknown op, no path, from of the wrong type): which one is named in the
+		// error must not depend on anything but the text
+		n := 8 + r.Intn(9)
+		badOps := []string{`{"op":"add","path":"/a"}`, `{"op":"move","path":"/b"}`, `{"op":"frobnicate","path":"/c","value":1}`, `{"op":"remove"}`, `{"op":"copy","from":7,"path":"/d"}`, `{"op":"replace","path":"/e"}`, `{"path":"/f","value":1}`, `{"op":"test","path":5,"value":1}`}
+		nbad := 2 + r.Intn(2)
+		at := map[int]string{}
+		for len(at) < nbad {
+			at[r.Intn(n)] = badOps[r.Intn(len(badOps))]
+		}
+		var sb strings.Builder
+		sb.WriteByte('[')
+		for i := 0; i < n; i++ {
+			if i > 0 {
+				sb.WriteByte(',')
+			}
+			if b, ok := at[i]; ok {
+				sb.WriteString(b)
+			} else {
+				fmt.Fprintf(&sb, `{"op":"add","path":"/k%d","value":%d}`, i, i)
+			}
+		}
+		sb.WriteByte(']')
+		pi := sg.addBuf(sb.String())
+		sg.pats = append(sg.pats, pi, pi, pi)
+		sg.faults["patch_with_several_unacceptable_operations"]++
 	}
 	if r.P(45) {
 		// results of 64 KiB and more (size classes of buffers, "large object" paths of pools and
@@ -511,6 +553,18 @@ func GenConc(seed uint64, prop, target string) (*Scenario, map[string]int64) {
 			}
 		}
 		sg.sc.Tasks = append(sg.sc.Tasks, calls)
+	}
+	for _, lp := range sg.longPair {
+		// work an implementation may spread over helpers: make sure it happens, in two tasks at once
+		for k, t := 0, r.Intn(len(sg.sc.Tasks)); k < 2; k, t = k+1, (t+1)%len(sg.sc.Tasks) {
+			sg.nextID++
+			c := Call{ID: sg.nextID, Fn: FnCreateMergePatch, Name: "CreateMergePatch", A: lp[0], B: lp[1]}
+			if k == 1 && r.Bool() {
+				c.Fn, c.Name = FnEqual, "Equal"
+			}
+			at := r.Intn(len(sg.sc.Tasks[t]) + 1)
+			sg.sc.Tasks[t] = append(sg.sc.Tasks[t][:at], append([]Call{c}, sg.sc.Tasks[t][at:]...)...)
+		}
 	}
 	if r.P(70) {
 		// The same small program in every task, differing only in *which member* it addresses - among
